@@ -316,7 +316,13 @@ func genPartitionChart(rng *rand.Rand, idx int) *pchart {
 		}
 		return ">12"
 	}
-	pc.Shape = fmt.Sprintf("part|files=%d|docs=%s|crlf=%v|seps=%s|classes=%s|partial=%v|notes=%v", len(fs), bucket(id), anyCRLF, strings.Join(ss, "+"), strings.Join(cs, "+"), hasPartial, hasNotes)
+	fb := "1"
+	if len(fs) > 3 {
+		fb = ">3"
+	} else if len(fs) > 1 {
+		fb = "2-3"
+	}
+	pc.Shape = fmt.Sprintf("part|files=%s|docs=%s|crlf=%v|seps=%s|classes=%s|partial=%v|notes=%v", fb, bucket(id), anyCRLF, strings.Join(ss, "+"), strings.Join(cs, "+"), hasPartial, hasNotes)
 	return pc
 }
 
